@@ -400,3 +400,125 @@ Proof.
   unfold last_tick. destruct (rev (p :: l)) eqn:R; [|reflexivity].
   apply (f_equal (@rev _)) in R. rewrite rev_involutive in R. discriminate.
 Qed.
+
+(* ---- refused transitions (entry guard of the target closed) --------------------------- *)
+Lemma refused_is_skipped_lemma p s fi t r :
+  needs_true s fi t = true -> guard_ok s (frame_of p (t_far t)) = false ->
+  pick p s fi (t :: r) = pick p s fi r.
+Proof. intros N G. cbn [pick]. rewrite N, G. reflexivity. Qed.
+
+Definition only_writes (h : list ev) : Prop := forall e, In e h -> exists ws, e = Write ws.
+
+Lemma writes_keep_marks h : forall v, only_writes h -> marks_of (fold_left step h v) = marks_of v.
+Proof.
+  induction h as [|e r IH]; intros v H; [reflexivity|].
+  cbn [fold_left]. rewrite IH; [|intros x Hx; apply H; right; exact Hx].
+  destruct (H e (or_introl eq_refl)) as [ws ->]. reflexivity.
+Qed.
+
+Lemma proj_writes_only sh key ws : only_writes (proj sh key (map KWrite ws)).
+Proof.
+  induction ws as [|[[s f] v] r IH]; intros e He; [destruct He|].
+  unfold proj in *. cbn [map flat_map proj1] in He. apply in_app_or in He. destruct He as [He|He].
+  - destruct (Z.eqb s sh); [|destruct He]. destruct He as [<-|[]]. eexists; reflexivity.
+  - apply IH. exact He.
+Qed.
+
+Lemma only_writes_app a b : only_writes a -> only_writes b -> only_writes (a ++ b).
+Proof. intros A B e He. apply in_app_or in He. destruct He; auto. Qed.
+
+Lemma apply_writes_active ws : forall s, k_active (apply_all s (map KWrite ws)) = k_active s.
+Proof.
+  induction ws as [|[[sh f] v] r IH]; intro s; [reflexivity|].
+  unfold apply_all in *. cbn [map fold_left apply_kev]. rewrite IH. reflexivity.
+Qed.
+
+(* the events of a tick in which no transition of the active frame is taken *)
+Lemma refused_tick_events p s pre post :
+  pick p (apply_all s (map KWrite pre)) (k_active s) (f_trans (frame_of p (k_active s))) = None ->
+  snd (tick p false s pre post) =
+  map KWrite pre ++ map KWrite (f_recur (frame_of p (k_active s))) ++ map KWrite post.
+Proof.
+  intro N. unfold tick, framer_evs.
+  pose proof (apply_writes_active pre s) as A.
+  rewrite A, N. reflexivity.
+Qed.
+
+Lemma refused_tick_keeps_marks_lemma p s pre post sh key :
+  pick p (apply_all s (map KWrite pre)) (k_active s) (f_trans (frame_of p (k_active s))) = None ->
+  marks_of (view (fst (tick p false s pre post)) sh key) = marks_of (view s sh key).
+Proof.
+  intro N. rewrite view_tick, (refused_tick_events p s pre post N).
+  apply writes_keep_marks. unfold proj. rewrite !flat_map_app.
+  repeat apply only_writes_app; apply proj_writes_only.
+Qed.
+
+(* a pending update stays pending under any further writes and ticks as long as the mark is untouched *)
+Definition quiet (h : list ev) : Prop := forall e, In e h -> e = Tick \/ exists ws, e = Write ws.
+
+Lemma step_wf v e : stamp_wf v -> stamp_wf (step v e).
+Proof.
+  intros W w. destruct e as [|ws|[|]|[|]]; cbn; intro H; try (specialize (W w H); lia).
+  inversion H. lia.
+Qed.
+
+Lemma fold_wf h : forall v, stamp_wf v -> stamp_wf (fold_left step h v).
+Proof.
+  induction h as [|e r IH]; intros v W; [exact W|]. cbn. apply IH. apply step_wf. exact W.
+Qed.
+
+Lemma run_stamp_wf d h : stamp_wf (run d h).
+Proof. unfold run. apply fold_wf. intros w H. discriminate. Qed.
+
+Lemma pending_survives h : forall v, quiet h -> stamp_wf v -> need_update v = true ->
+  need_update (fold_left step h v) = true.
+Proof.
+  induction h as [|e r IH]; intros v Q W U; [exact U|].
+  cbn [fold_left]. apply IH; [intros x Hx; apply Q; right; exact Hx|apply step_wf; exact W|].
+  destruct (Q e (or_introl eq_refl)) as [->|[ws ->]].
+  - exact U.
+  - unfold need_update in *. cbn [step sstamp mstamp mused].
+    destruct (sstamp v) as [w|] eqn:E; [|discriminate]. specialize (W w E).
+    destruct (mstamp v) as [m|]; [|reflexivity].
+    apply orb_true_iff in U. destruct U as [U|U].
+    + apply Nat.ltb_lt in U. apply orb_true_iff. left. apply Nat.ltb_lt. lia.
+    + apply andb_true_iff in U. destruct U as [U1 U2]. apply Nat.eqb_eq in U1. subst m.
+      destruct (Nat.eqb (now v) w) eqn:E2.
+      * apply orb_true_iff. right. rewrite U2. reflexivity.
+      * apply Nat.eqb_neq in E2. apply orb_true_iff. left. apply Nat.ltb_lt. lia.
+Qed.
+
+Lemma quiet_of_writes h : only_writes h -> quiet h.
+Proof. intros H e He. right. apply H. exact He. Qed.
+
+Lemma quiet_app a b : quiet a -> quiet b -> quiet (a ++ b).
+Proof. intros A B e He. apply in_app_or in He. destruct He; auto. Qed.
+
+Lemma pending_update_survives_lemma p s pre post sh key extra :
+  pick p (apply_all s (map KWrite pre)) (k_active s) (f_trans (frame_of p (k_active s))) = None ->
+  stamp_wf (view s sh key) ->
+  need_eval (apply_all s (map KWrite pre)) (KUpd, sh, key) = true ->
+  let s' := fst (tick p false s pre post) in
+  need_eval (apply_all (with_now s' (S (k_now s'))) (map KWrite extra)) (KUpd, sh, key) = true.
+Proof.
+  intros N W U. cbn zeta. unfold need_eval in *.
+  rewrite view_apply_all, view_tick_advance, view_tick, (refused_tick_events p s pre post N).
+  rewrite view_apply_all in U.
+  unfold proj. rewrite !flat_map_app.
+  fold (proj sh key (map KWrite pre)). rewrite fold_left_app.
+  set (v1 := fold_left step (proj sh key (map KWrite pre)) (view s sh key)) in *.
+  assert (W1 : stamp_wf v1) by (apply fold_wf; exact W).
+  assert (Q2 : quiet (flat_map (proj1 sh key) (map KWrite (f_recur (frame_of p (k_active s)))) ++
+                      flat_map (proj1 sh key) (map KWrite post))).
+  { apply quiet_app; apply quiet_of_writes; apply (proj_writes_only sh key). }
+  apply pending_survives.
+  - apply quiet_of_writes. apply (proj_writes_only sh key).
+  - apply step_wf. apply fold_wf. exact W1.
+  - change (need_update (fold_left step [Tick] (fold_left step
+        (flat_map (proj1 sh key) (map KWrite (f_recur (frame_of p (k_active s)))) ++
+         flat_map (proj1 sh key) (map KWrite post)) v1)) = true).
+    apply pending_survives.
+    + intros e [<-|[]]. left. reflexivity.
+    + apply fold_wf. exact W1.
+    + apply pending_survives; [exact Q2|exact W1|exact U].
+Qed.
